@@ -276,11 +276,12 @@ theorem read_faithful_chunked (m t p : Bytes) (hs : List (Bytes × Bytes)) (chun
         .ok (mkReq m t p tg (hdrDic hs) chunks.flatten, { inp := rest }) :=
   read_faithful_chunked_canon m t p hs chunks rest hw hch hcl hte
 
-/-- a chunk-size line in any other spelling the code accepts (upper case, leading zeros, `0x`, extensions) works the
-    same as long as `strtoul` reads the data length from it (`ChunkOk.size`) -/
+/-- a chunk-size line in any other spelling the reader accepts (`chunkLineOk`: upper case, leading zeros up to 8 digits,
+    blanks, `;extension`) works the same; its value is the data length (`ChunkOk.size`) -/
 theorem read_faithful_chunked_any_spelling (s : Sock) (m t p : Bytes) (hs : List (Bytes × Bytes)) (cs : List Chunk)
     (sizeLine rest : Bytes) (hw : HeadOk m t p hs) (hcs : ∀ c ∈ cs, ChunkOk c)
-    (hlf : ∀ b ∈ sizeLine, b ≠ 10) (hshort : sizeLine.length ≤ 16000) (hz : hexToInt (sizeLine ++ [13]) = 0)
+    (hlf : ∀ b ∈ sizeLine, b ≠ 10) (hshort : sizeLine.length ≤ 16000) (hok : chunkLineOk (sizeLine ++ [13]) = true)
+    (hz : hexToInt (sizeLine ++ [13]) = 0)
     (hcl : hasHeader (hdrDic hs) sContentLength = false)
     (hte : isChunked (header (hdrDic hs) sTransferEncoding) = true)
     (he : s.err = 0) (hc : s.closed = false)
@@ -288,7 +289,7 @@ theorem read_faithful_chunked_any_spelling (s : Sock) (m t p : Bytes) (hs : List
             (cs.flatMap Chunk.bytes ++ (sizeLine ++ 13 :: 10 :: 13 :: 10 :: rest)))))) :
     ∃ tg, parseTarget t = .ok tg ∧
       AslModel.HttpParse.read s = .ok (mkReq m t p tg (hdrDic hs) (cs.map Chunk.data).flatten, { s with inp := rest }) :=
-  read_faithful_chunked_aux s m t p hs cs sizeLine rest hw hcs hlf hshort hz hcl hte he hc hi
+  read_faithful_chunked_aux s m t p hs cs sizeLine rest hw hcs hlf hshort hok hz hcl hte he hc hi
 
 /-- the dictionary `query()` hands to the application is the one C15's model of `Url::parseQuery` computes (C15 ties
     that model to the library and proves its round trip), for every NUL-free query string — request targets are -/
@@ -395,5 +396,16 @@ example : (readBody { inp := [71, 69, 84] } [(sContentLength, [48, 48])]).toOpti
 -- Transfer-Encoding: "Chunked", "gzip, chunked" are chunked; "chunked, gzip" and "x-chunked" are not (7dcf721)
 example : isChunked [67, 104, 117, 110, 107, 101, 100] = true ∧ isChunked [103, 122, 105, 112, 44, 32, 99, 104, 117, 110, 107, 101, 100] = true ∧
     isChunked [99, 104, 117, 110, 107, 101, 100, 44, 32, 103, 122, 105, 112] = false ∧ isChunked [120, 45, 99, 104, 117, 110, 107, 101, 100] = false := by decide
+
+-- chunk framing (4dbedbe, d0ace7d): which size lines are chunk-size lines, and what a bad one does
+example : chunkLineOk [53, 13] = true ∧ chunkLineOk [53, 59, 101, 13] = true ∧ chunkLineOk [48, 48, 70, 32, 13] = true ∧
+    chunkLineOk [49, 48, 48, 48, 48, 48, 48, 48, 53, 13] = false ∧ chunkLineOk [56, 48, 48, 48, 48, 48, 48, 53, 13] = false ∧
+    chunkLineOk [45, 49, 13] = false ∧ chunkLineOk [48, 120, 53, 13] = false ∧ chunkLineOk [13] = false ∧ chunkLineOk [122, 122, 13] = false ∧
+    chunkLineOk [32, 53, 13] = false ∧ chunkLineOk [53] = false := by decide
+-- "100000005\r\nhello..." (0x100000005) and "5\r\nhello" + "zz" close the connection instead of guessing
+example : (readBody { inp := [49, 48, 48, 48, 48, 48, 48, 48, 53, 13, 10, 104, 101, 108, 108, 111, 13, 10] } [(sTransferEncoding, sChunked)]).toOption.map
+    (fun r => (r.2, r.1.closed)) = some ([], true) := by decide
+example : (readBody { inp := [53, 13, 10, 104, 101, 108, 108, 111, 122, 122, 48, 13, 10, 13, 10] } [(sTransferEncoding, sChunked)]).toOption.map
+    (fun r => (r.2, r.1.closed)) = some ([104, 101, 108, 108, 111], true) := by decide
 
 end C09
